@@ -64,7 +64,26 @@ def run_item(item):
     def viol(key, what, **kw):
         res["violations"].append(dict(key=key, what=what, **kw))
 
+    def invalid_as_input(ns):
+        """A computed group-level column that is not constant within its groups (the known C15 findings) is not valid input
+        once the matching id is a data column too: GETTSIM rightly rejects it.  Such combinations are not C05's business."""
+        from vf.checks.c15 import constant_within, level_of
+
+        for n_ in ns:
+            lvl = level_of(n_)
+            if lvl and not n_.endswith("_id") and (f"{lvl}_id" in ns or f"{lvl}_id" in df.columns) and f"{lvl}_id" in S0.columns:
+                if constant_within(S0[n_].tolist(), S0[f"{lvl}_id"].tolist()) >= 0:
+                    return n_
+        return None
+
     def supply(ns, variant):
+        bad = invalid_as_input(ns)
+        while bad is not None:
+            res["skipped_not_constant_within_group"] = res.get("skipped_not_constant_within_group", 0) + 1
+            if variant != "many":
+                return
+            ns = [x for x in ns if x != bad]
+            bad = invalid_as_input(ns)
         data = df.copy()
         for n_ in ns:
             col = S0[n_].to_numpy()
@@ -182,6 +201,7 @@ def summarize(results, tier, seed):
         rule="evaluation = one run with a computed node supplied as data column and all other nodes requested, "
              "compared bitwise with the all-nodes run; distinct = (population, date, variant, supplied node(s))",
         runs_by_variant=variants,
+        combinations_skipped_because_a_computed_group_column_is_not_constant=sum(r.get("skipped_not_constant_within_group", 0) for r in ok),
         distinct_nodes_supplied=len({s[1] for r in ok for s in r["supplied"]}),
         columns_compared=sum(r["columns_compared"] for r in ok),
         dates=sorted({r["date"] for r in ok}),
